@@ -23,8 +23,16 @@ const (
 	WShortOneNil         // (len-1, nil) at call k: short by exactly one byte, no error
 	WErrEOF              // (0, io.EOF) at call k only: an error value that reading code often treats as "done"
 	WErrTemporary        // (0, err with Temporary() == true) at call k only
+	WErrWrapper          // (0, a wrapper error whose Unwrap() returns nil) at call k only
 	nWFault
 )
+
+// wrapErr is a wrapper error with an optional cause that happens to be absent (like an *os.SyscallError
+// or a custom transport error built without an inner error).
+type wrapErr struct{ cause error }
+
+func (e *wrapErr) Error() string { return "injected wrapper failure" }
+func (e *wrapErr) Unwrap() error { return e.cause }
 
 // tempErr is an error that claims to be temporary (like a net.Error after a deadline).
 type tempErr struct{}
@@ -34,7 +42,7 @@ func (tempErr) Temporary() bool { return true }
 func (tempErr) Timeout() bool   { return true }
 
 func (k WFault) String() string {
-	return [...]string{"none", "err-once", "err-sticky", "short+ErrShortWrite", "short+nil", "short-by-one+nil", "err-once(io.EOF)", "err-once(temporary)"}[k]
+	return [...]string{"none", "err-once", "err-sticky", "short+ErrShortWrite", "short+nil", "short-by-one+nil", "err-once(io.EOF)", "err-once(temporary)", "err-once(wrapper without cause)"}[k]
 }
 
 var errInjected = errors.New("injected writer failure")
@@ -72,6 +80,10 @@ func (w *FaultyWriter) Write(p []byte) (int, error) {
 			w.Fired++
 			w.FiredAt = append(w.FiredAt, w.Calls)
 			return 0, tempErr{}
+		case WErrWrapper:
+			w.Fired++
+			w.FiredAt = append(w.FiredAt, w.Calls)
+			return 0, &wrapErr{}
 		case WShortErr, WShortNil, WShortOneNil:
 			if len(p) == 0 {
 				break // a zero-length write cannot be short; nothing fires
